@@ -287,3 +287,117 @@ def G_bin(op_re, a_all, b_all, label, pass_value):
                     blocks.append(bb)
         return edges, blocks
     return ("custom", fn, label)
+
+
+# --------------------------------------------------------------------------- panic surface (T6)
+PANIC_CALLS = [
+    (r"^core::panicking::(panic|panic_fmt|panic_display|panic_explicit|unreachable_display|panic_nounwind|assert_failed|assert_failed_inner|panic_const::.*)$", "panic"),
+    (r"^std::rt::begin_panic|^core::panicking::|^std::panicking::", "panic"),
+    (r"^core::option::Option(<[^>]*>)?::(unwrap|expect)$", "Option::unwrap"),
+    (r"^core::result::Result(<[^>]*>)?::(unwrap|expect|unwrap_err|expect_err)$", "Result::unwrap"),
+    (r"^core::option::unwrap_failed|^core::option::expect_failed|^core::result::unwrap_failed", "panic"),
+    (r"core::ops::index::Index(Mut)?(<.*>)?>::index(_mut)?$", "index"),
+    (r"^core::slice::<impl \[T\]>::(copy_from_slice|clone_from_slice|split_at|split_at_mut|swap|rotate_left|rotate_right|chunks|chunks_exact|windows|first_chunk|last_chunk)$|^\[T\]::(copy_from_slice|clone_from_slice|split_at|split_at_mut|swap|chunks|chunks_exact|windows)$", "slice-op"),
+    (r"^core::str::<impl str>::(split_at|split_at_mut)$|^str::(split_at|split_at_mut)$", "str-split"),
+    (r"^alloc::vec::Vec(<.*>)?::(remove|insert|swap_remove|drain|split_off|truncate_front)$", "vec-op"),
+    (r"^alloc::string::String::(remove|insert|insert_str|drain|split_off|replace_range)$", "string-op"),
+    (r"^core::cell::RefCell(<.*>)?::(borrow|borrow_mut)$", "refcell"),
+    (r"^alloc::collections::vec_deque::VecDeque(<.*>)?::(remove|insert|swap)$", "vecdeque-op"),
+    (r"^core::num::<impl [iu][0-9a-z]+>::(pow|abs|div_euclid|rem_euclid|next_power_of_two|ilog|ilog2|ilog10)$|^[iu](8|16|32|64|128|size)::(pow|abs|div_euclid|rem_euclid|next_power_of_two|ilog|ilog2|ilog10)$", "int-op"),
+    (r"^core::char::methods::<impl char>::from_digit$|^char::from_digit$", "char-op"),
+    (r"^core::iter::traits::iterator::Iterator::step_by$|^core::slice::<impl \[T\]>::(chunks|windows)$", "iter-op"),
+]
+_PANIC_RES = [(re.compile(p), k) for p, k in PANIC_CALLS]
+
+
+def index_kind(t):
+    """'index:<container>' for an Index::index call"""
+    m = re.match(r"^<(.*?) as core::ops::index::Index", t["f"])
+    if m:
+        return "index:" + re.sub(r"<.*", "", m.group(1))
+    m = re.match(r"^<(.*?) as core::ops::index::Index", t["fd"])
+    if m:
+        return "index:" + re.sub(r"<.*", "", m.group(1))
+    # unresolved: use the argument type of the generic call
+    ga = t.get("ga", "")
+    return "index:" + re.sub(r"[<,\]].*", "", ga.strip("[")) if ga else "index:?"
+
+
+def panic_sites(body):
+    """[(kind, bb, detail)] of every panic-capable construct in a MIR body (asserts + known panicking callees)"""
+    out = []
+    for i in range(body.n):
+        if body.blocks[i].get("cu"):
+            continue
+        t = body.term(i)
+        if t["k"] == "assert":
+            out.append((t["ak"], i, ""))
+        elif t["k"] == "call":
+            for r, k in _PANIC_RES:
+                if r.search(t["f"]) or r.search(t["fd"]):
+                    if k == "index":
+                        k = index_kind(t)
+                        # the range flavour matters for str (char-boundary panics)
+                        if "Range" in t["f"] or "Range" in t["fd"] or "Range" in t.get("ga", ""):
+                            k += "[range]"
+                    out.append((k, i, t["f"]))
+                    break
+    return out
+
+
+def const_index_under_len_eq(body, bb, t):
+    """discharge: `v[K]` (Vec/slice Index with constant K) dominated by a `v.len() == N` test with K < N on the true edge"""
+    idx = t["args"][1]
+    if idx[0] != "k" or not str(idx[1].get("v", "")).isdigit():
+        return False
+    k = int(idx[1]["v"])
+    edges = []
+    for sb in body.switches():
+        si = body.switch_info(sb)
+        if not si or si["kind"] != "bool":
+            continue
+        for a in si["atoms"]:
+            if a.kind == "bin" and a.what == "Eq":
+                ops = [a.extra["a"], a.extra["b"]]
+                consts = [o for o in ops if o[0] == "k" and str(o[1].get("v", "")).isdigit()]
+                lens = [o for o in ops if o[0] != "k" and any(x.kind == "call" and re.search(r"(Vec(<.*>)?|\[T\]|<impl \[T\]>)::len$", x.what) for x in body.origins(o))]
+                if consts and lens and k < int(consts[0][1]["v"]):
+                    edges.append((sb, si["true"]))
+    if not edges:
+        return False
+    return body.unreachable_without([bb], edges)[0]
+
+
+def check_panic_surface(ctx, key, bodies, audited, discharge=None, what=""):
+    """T6: every panic-capable construct in `bodies` is either discharged by a local rule or listed in the audited multiset
+    audited: {fn-suffix-regex: {kind: (max_count, reason)}}"""
+    total, discharged_n, listed = 0, 0, 0
+    for b in bodies:
+        sites = panic_sites(b)
+        residue = {}
+        for kind, bb, detail in sites:
+            total += 1
+            t = b.term(bb)
+            if t["k"] == "call" and kind.startswith("index:") and "[range]" not in kind and const_index_under_len_eq(b, bb, t):
+                discharged_n += 1
+                continue
+            if discharge and discharge(b, kind, bb, t):
+                discharged_n += 1
+                continue
+            residue.setdefault(kind, []).append(bb)
+        table = {}
+        for pat, tb in audited.items():
+            if re.search(pat, b.name):
+                for k, v in tb.items():
+                    table[k] = v
+        short = b.name.split("::")[-1] if not b.name.endswith("}") else "::".join(b.name.split("::")[-2:])
+        owner = re.sub(r"^.*?([A-Za-z0-9_]+(::\{closure#\d+\})*)$", r"\1", b.name)
+        for kind, bbs in sorted(residue.items()):
+            mx, why = table.get(kind, (0, None))
+            ok = len(bbs) <= mx
+            listed += min(len(bbs), mx)
+            ctx.ob(f"{key}|{owner}|{kind}", ok,
+                   f"{what}: {len(bbs)} `{kind}` site(s) in {b.name}" + (f" within the audited {mx} ({why})" if ok else
+                                                                        f" but only {mx} audited: a panic-capable construct on an untrusted-input path needs a local guard or an audit line"),
+                   b.loc(bbs[0]))
+    return total, discharged_n, listed
